@@ -1,33 +1,41 @@
 import OpcuaModel.Model.Republish
 namespace Opcua.Rep
 
+/-- what the loop guarantees against an honest server -/
+def Good (q : List Nat) (n : Nat) (del : List Nat) (r : Result) : Prop :=
+  (∀ s, s ∈ r.delivered ↔ s ∈ del ∨ (n ≤ s ∧ s < r.nextSeq)) ∧
+  (∀ t, n ≤ t → t < r.nextSeq → t ∈ q) ∧
+  n ≤ r.nextSeq ∧
+  (r.outcome = .done ∨ r.outcome = .running) ∧
+  (r.outcome = .done → r.nextSeq ∉ q)
+
+theorem good_stop (q : List Nat) (n : Nat) (del req : List Nat) (o : Outcome)
+    (ho : o = .done ∨ o = .running) (hq : o = .done → n ∉ q) : Good q n del ⟨del, req, n, o⟩ := by
+  refine ⟨?_, ?_, Nat.le_refl _, ho, hq⟩
+  · intro s; constructor
+    · intro h; exact Or.inl h
+    · rintro (h | ⟨h1, h2⟩)
+      · exact h
+      · exact absurd h2 (by show ¬ s < n; omega)
+  · intro t h1 h2; exact absurd h2 (by show ¬ t < n; omega)
+
 /-- generalised invariant of the loop against an honest server whose transfer result
     listed exactly the queue (or nothing) -/
 theorem loop_honest (q avail : List Nat) (ha : avail = [] ∨ ∀ x, x ∈ avail ↔ x ∈ q) :
-    ∀ (fuel n : Nat) (del req : List Nat),
-      let r := loop avail (honest q) fuel n del req
-      (∀ s, s ∈ r.delivered ↔ s ∈ del ∨ (n ≤ s ∧ s < r.nextSeq)) ∧
-      (∀ t, n ≤ t → t < r.nextSeq → t ∈ q) ∧
-      n ≤ r.nextSeq ∧
-      (r.outcome = .done ∨ r.outcome = .running) ∧
-      (r.outcome = .done → r.nextSeq ∉ q)
+    ∀ (fuel n : Nat) (del req : List Nat), Good q n del (loop avail (honest q) fuel n del req)
   | 0, n, del, req => by
-    simp only [loop]
-    refine ⟨?_, ?_, Nat.le_refl _, Or.inr rfl, by simp⟩
-    · intro s; constructor
-      · intro h; exact Or.inl h
-      · rintro (h | ⟨h1, h2⟩)
-        · exact h
-        · omega
-    · intro t h1 h2; omega
+    unfold loop
+    exact good_stop q n del req .running (Or.inr rfl) (by intro h; cases h)
   | fuel + 1, n, del, req => by
-    simp only [loop, honest]
+    unfold loop
     by_cases hn : n ∈ q
-    · simp only [hn, if_true]
-      by_cases hstop : avail ≠ [] ∧ n + 1 ∉ avail
-      · simp only [hstop, not_false_eq_true, and_self, if_true]
-        refine ⟨?_, ?_, by omega, Or.inl rfl, ?_⟩
+    · have hs : honest q n = .msg n := by simp [honest, hn]
+      simp only [hs]
+      split
+      · rename_i hstop
+        refine ⟨?_, ?_, Nat.le_succ _, Or.inl rfl, ?_⟩
         · intro s
+          show s ∈ del ++ [n] ↔ s ∈ del ∨ (n ≤ s ∧ s < n + 1)
           simp only [List.mem_append, List.mem_singleton]
           constructor
           · rintro (h | h)
@@ -37,16 +45,15 @@ theorem loop_honest (q avail : List Nat) (ha : avail = [] ∨ ∀ x, x ∈ avail
             · exact Or.inl h
             · exact Or.inr (by omega)
         · intro t h1 h2
+          have h2' : t < n + 1 := h2
           have : t = n := by omega
           exact this ▸ hn
         · intro _
+          show n + 1 ∉ q
           rcases ha with ha | ha
           · exact absurd ha hstop.1
           · exact fun h => hstop.2 ((ha _).mpr h)
-      · simp only [hstop, if_false]
-        have ih := loop_honest q avail ha fuel (n + 1) (del ++ [n]) (req ++ [n])
-        simp only at ih
-        obtain ⟨h1, h2, h3, h4, h5⟩ := ih
+      · obtain ⟨h1, h2, h3, h4, h5⟩ := loop_honest q avail ha fuel (n + 1) (del ++ [n]) (req ++ [n])
         refine ⟨?_, ?_, by omega, h4, h5⟩
         · intro s
           rw [h1 s]
@@ -65,27 +72,23 @@ theorem loop_honest (q avail : List Nat) (ha : avail = [] ∨ ∀ x, x ∈ avail
           by_cases hs : t = n
           · exact hs ▸ hn
           · exact h2 t (by omega) ht2
-    · simp only [hn, if_false]
-      refine ⟨?_, ?_, Nat.le_refl _, Or.inl rfl, fun _ => hn⟩
-      · intro s; constructor
-        · intro h; exact Or.inl h
-        · rintro (h | ⟨h1, h2⟩)
-          · exact h
-          · omega
-      · intro t h1 h2; omega
+    · have hs : honest q n = .notAvailable := by simp [honest, hn]
+      simp only [hs]
+      exact good_stop q n del (req ++ [n]) .done (Or.inl rfl) (fun _ => hn)
 
 /-- the loop appends to `delivered` in strictly increasing order -/
 theorem loop_sorted (q avail : List Nat) :
     ∀ (fuel n : Nat) (del req : List Nat), del.Pairwise (· < ·) → (∀ x ∈ del, x < n) →
       (loop avail (honest q) fuel n del req).delivered.Pairwise (· < ·)
-  | 0, n, del, req, hp, _ => by simpa [loop] using hp
+  | 0, n, del, req, hp, _ => by unfold loop; exact hp
   | fuel + 1, n, del, req, hp, hb => by
-    simp only [loop, honest]
+    unfold loop
     have hp' : (del ++ [n]).Pairwise (· < ·) := by
       rw [List.pairwise_append]
       exact ⟨hp, by simp, by intro a ha b hb'; simp at hb'; subst hb'; exact hb a ha⟩
     by_cases hn : n ∈ q
-    · simp only [hn, if_true]
+    · have hs : honest q n = .msg n := by simp [honest, hn]
+      simp only [hs]
       split
       · exact hp'
       · apply loop_sorted q avail fuel (n + 1) _ _ hp'
@@ -94,36 +97,65 @@ theorem loop_sorted (q avail : List Nat) :
         rcases hx with hx | hx
         · have := hb x hx; omega
         · omega
-    · simpa [hn] using hp
+    · have hs : honest q n = .notAvailable := by simp [honest, hn]
+      simp only [hs]
+      exact hp
+
+theorem filter_succ_le (q : List Nat) (n : Nat) :
+    (q.filter (fun x => decide (n + 1 ≤ x))).length ≤ (q.filter (fun x => decide (n ≤ x))).length := by
+  induction q with
+  | nil => simp
+  | cons a as ih =>
+    simp only [List.filter_cons]
+    by_cases h1 : n + 1 ≤ a
+    · have h2 : n ≤ a := by omega
+      simp [h1, h2]; omega
+    · by_cases h2 : n ≤ a
+      · simp [h1, h2]; omega
+      · simp [h1, h2]; omega
+
+theorem filter_ge_succ_lt {q : List Nat} {n : Nat} (hn : n ∈ q) :
+    (q.filter (fun x => decide (n + 1 ≤ x))).length < (q.filter (fun x => decide (n ≤ x))).length := by
+  induction q with
+  | nil => simp at hn
+  | cons a as ih =>
+    simp only [List.filter_cons]
+    simp only [List.mem_cons] at hn
+    by_cases ha : a = n
+    · subst ha
+      have h1 : decide (a + 1 ≤ a) = false := by simp
+      have h2 : decide (a ≤ a) = true := by simp
+      simp only [h1, h2, if_true, List.length_cons, Bool.false_eq_true, if_false]
+      have := filter_succ_le as a
+      omega
+    · have hmem : n ∈ as := by
+        rcases hn with h | h
+        · exact absurd h.symm ha
+        · exact h
+      have := ih hmem
+      by_cases h1 : n + 1 ≤ a
+      · have h2 : n ≤ a := by omega
+        simp [h1, h2]; omega
+      · by_cases h2 : n ≤ a
+        · simp [h1, h2]; omega
+        · simp [h1, h2]; omega
 
 /-- with enough fuel the loop against an honest server ends -/
 theorem loop_terminates (q avail : List Nat) :
-    ∀ (fuel n : Nat) (del req : List Nat), (q.filter (n ≤ ·)).length < fuel →
+    ∀ (fuel n : Nat) (del req : List Nat), (q.filter (fun x => decide (n ≤ x))).length < fuel →
       (loop avail (honest q) fuel n del req).outcome = .done
   | 0, _, _, _, h => by omega
   | fuel + 1, n, del, req, h => by
-    simp only [loop, honest]
+    unfold loop
     by_cases hn : n ∈ q
-    · simp only [hn, if_true]
+    · have hs : honest q n = .msg n := by simp [honest, hn]
+      simp only [hs]
       split
       · rfl
       · apply loop_terminates q avail fuel (n + 1)
-        -- n itself is counted in the filter for n but not in the filter for n+1
-        have hlt : (q.filter (n + 1 ≤ ·)).length < (q.filter (n ≤ ·)).length := by
-          have hsub : ∀ x, x ∈ q.filter (n + 1 ≤ ·) → x ∈ q.filter (n ≤ ·) := by
-            intro x hx
-            simp only [List.mem_filter, decide_eq_true_eq] at hx ⊢
-            exact ⟨hx.1, by omega⟩
-          have h1 : q.filter (n + 1 ≤ ·) = (q.filter (n ≤ ·)).filter (n + 1 ≤ ·) := by
-            rw [List.filter_filter]
-            congr 1
-            funext x
-            simp only [decide_eq_true_eq, Bool.and_eq_true, Bool.decide_and]
-            by_cases hx : n + 1 ≤ x <;> simp [hx] <;> omega
-          rw [h1]
-          apply List.length_filter_lt_length_iff_exists.mpr
-          exact ⟨n, by simp [hn], by simp⟩
+        have := filter_ge_succ_lt hn
         omega
-    · simp [hn]
+    · have hs : honest q n = .notAvailable := by simp [honest, hn]
+      simp only [hs]
 
 end Opcua.Rep
